@@ -109,8 +109,8 @@ PROPS = {
                    "- a non-admin `resolve ... $$token ...` is outside every contract here (the six keyed data arms get / get-safe / watch / set / increment / "
                    "remove ARE verified to pass their key through the guard, unit dispatch)",
                    "two-run noninterference is reduced to: the guarded closure is not callable and the reply is an error",
-                   "the WRITING arms' closure bodies (set / remove / increment on a $$ key are guarded - unit dispatch - but what the closure does once allowed is verified only for the "
-                   "reading arms: unit replies, incl. `keys` asking for system keys exactly for an administrator session)"],
+                   "what leaves the node: unit outbox proves that a refused command puts nothing on the replication channel; the forwarding of a secondary's writes to its "
+                   "primary happens inside the guarded closures (op_set / op_increment, unit consensus) and is covered end to end by the bounded family `forward` only"],
         assumptions=["str::starts_with is a prefix test (trusted shim)",
                      "closures: `opp` may be called only where its precondition is provable; the caller contract makes that precondition available only when "
                      "the session may access the key"],
@@ -118,8 +118,10 @@ PROPS = {
     "C09": dict(
         units=["security", "store", "dispatch", "permissions", "outbox", "sessions", "parser"],
         kani=[K_AUTH, K_KIND],
-        undecided=["dispatcher arms that are not a single guard call: Auth, UseDb (failed use-db leaving the selection untouched is checked by the bounded sweep only), "
-                   "Resolve, ReplicateRequest (rp); the closure bodies handed to the guards are abstracted (R10), so WHAT an arm does once allowed is not verified here",
+        undecided=["the ReplicateRequest (rp) arm; the Auth, UseDb and Resolve arms ARE verified with their own bodies (unit dispatch; unit sessions: a refused use-db leaves the whole "
+                   "selection - database and user - as it was, an accepted user login binds exactly that user); of the closure bodies handed to the guards those of get / "
+                   "get-safe / keys / set / remove / increment / watch / unwatch / unwatch-all / replicate / ack / set-primary / set-secoundary are verified in their units, the "
+                   "remaining administrative ones (create-user, set-permissions, snapshot, join / leave, cluster-state, debug ...) are abstracted (R10)",
                    "mid-session permission changes",
                    "the text-level meaning of std's str::split / splitn (spec_split, head_of, tail_of are uninterpreted): the STRUCTURE of the decision of a stored permission list "
                    "(statements, kind letters, per-pattern matcher, any-of-any) is proved on the real code in unit permissions, the splitting itself is std's"],
@@ -183,8 +185,10 @@ PROPS = {
         undecided=["the protocol: join / replicate-since handshake, the supervisor loop, sockets, writes accepted during the synchronisation (async code, several processes)",
                    "the incremental path: that the operation-log query reports every pair changed since `since` is C12 (unit oplog); here ops_since(since) is any map of records whose "
                    "identifiers decode (precondition `decodes`: C16's subject); the comparison closure of its sort_by is replaced by a trusted shim (log order)",
-                   "the receiving side: that the parser and the ReplicateSet / CreateDb handlers turn a well-formed line back into the same key, value and version "
-                   "(the parsers are proved total in unit parser, not inverse to the emitters: strings are uninterpreted for both verifiers) - the bounded sweep feeds the real lines through the real parser",
+                   "the receiving side: parse_replicate_command / parse_replicate_remove_command are verified to read `<db> <key> <VERSION> <value>` resp. `<db> <key>` from the "
+                   "token stream (unit parser), and the `replicate` handler to apply exactly that (op_replicate_set); that format! and splitn are inverse to each other on "
+                   "these lines is NOT proved (format strings and split are uninterpreted) - the bounded sweep feeds the real lines through the real parser; the CreateDb "
+                   "handler is not under contract",
                    "startup: invalid oplog => since 0 (bin/main.rs)"],
         assumptions=["format! is an uninterpreted function of its literal and of the Display texts of its arguments (nfmt! shims); Display of a String / a Value is its text / its value",
                      "`map.values().collect()`, iteration over `&HashMap` and HashMap::clone are replaced by trusted list shims (every entry once)",
@@ -218,17 +222,20 @@ PROPS = {
         kani=[K_ROLE_CODEC],
         undecided=["the protocol half of the statement: that after any interleaving of candidacies, acknowledgements and set-primary messages between 2-3 nodes exactly one node "
                    "is Primary and all nodes name the same one (a global invariant over several processes and message orders; no contract on one call states it)",
-                   "the SetPrimary / Join / Leave / ElectionWin dispatcher arms (their bodies are closures handed to apply_if_auth; R10 abstracts closure bodies) and the "
-                   "supervisor's `election-win` => set-primary broadcast (async loop)",
+                   "the Join / Leave / ElectionWin dispatcher arms and the supervisor's `election-win` => set-primary broadcast (async loop); the closures of the SetPrimary / "
+                   "SetScoundary arms ARE verified (op_set_primary / op_set_scoundary: the link's tag follows the last announcement; told-primary becomes secondary)",
                    "that process_id really is the start time and is distinct between nodes (bin/main.rs)",
-                   "that the claim made after all acknowledgements arrived re-checks eligibility (a node that yielded while waiting must not claim): the paths of "
-                   "start_election are not distinguishable in a postcondition, and election_win cannot carry a precondition because the ElectionWin command calls it freely",
+                   "that the claim made after all acknowledgements arrived re-checks eligibility AFTER the pause (a node that yielded while waiting must not claim): what IS "
+                   "proved is that on every path some time is spent asleep between announcing and claiming (C07.no-claim-without-a-wait, explicit clock token); that the "
+                   "eligibility test follows the last sleep is visible in the extracted body but is not a postcondition (election_win cannot carry a precondition because the "
+                   "ElectionWin command calls it freely)",
                    "interference other than at thread::sleep: the role word is re-read after every sleep, other threads may change it at any instant"],
         assumptions=["sequential model with ONE interference point: thread::sleep may change this node's role and member table (shim_sleep), nothing else",
                      "replicate_message hands exactly one message to the replication thread or fails (trusted contract; body is 1 line over replicate_message_with_sender)",
                      "get_pending_opp_copy / is_full_acknowledged may return anything (their accounting is C15)",
                      "format! is an uninterpreted function of its literal and of the Display texts of its arguments (nfmt! shims)",
-                     "NUN_ELECTION_TIMEOUT < u128::MAX - 8 (configuration; default 1000)"],
+                     "0 < NUN_ELECTION_TIMEOUT < u128::MAX - 8 (configuration; default 1000)",
+                     "the time asleep is an explicit token advanced only by thread::sleep (shim_sleep)"],
     ),
     "C20": dict(
         units=["http", "outbox"],
@@ -243,7 +250,10 @@ PROPS = {
     ),
     "C19": dict(
         units=["consensus", "store", "outbox", "snapshot"],
-        undecided=["two concurrent clients (lock elision)", "'applied in the primary's order on every node' (replication)"],
+        undecided=["two concurrent clients (lock elision)",
+                   "'applied in the primary's order on every node': the pieces are decided - the line an accepted write leaves as (unit outbox), what the receiver reads from it "
+                   "(unit parser, C05.parse-replicate), and that the `replicate` handler applies it through the same resolving operation as a client's set on every role "
+                   "(op_replicate_set, unit consensus) - the composition over two processes is covered by the bounded family `replica` only"],
         assumptions=["Change::new stamps the resolving change with the wall clock (any u64)"],
     ),
     "C10": dict(
